@@ -82,14 +82,23 @@ def calibrate(wd, out):
     res = run_harness_cases(cases, wd, "calibrate")
     if res[0].get("panic"):
         raise core.ToolError("probe panicked: %s" % res[0]["panic"])
-    bad = []
+    bad, premise = [], []
     for (i, j), o in zip(pairs, res[0]["obs"]):
         same = texts[i][0] == texts[j][0]
-        if o["eq"] != same or (same and not o["hash_eq"]):
-            bad.append((texts[i][1], texts[j][1], o))
+        if o.get("val_eq") is not None and o["val_eq"] != same:
+            premise.append((texts[i][1], texts[j][1], o))      # the pool itself is wrong (or the parser: C09)
+        elif o["eq"] != same or (same and not o["hash_eq"]):
+            bad.append({"a": texts[i][1], "b": texts[j][1], "same_value": same, "ReconKey_eq": o["eq"], "hash_eq": o["hash_eq"]})
+    if premise:
+        raise core.ToolError("key text pool does not match the parsed values: %s" % premise[:5])
     if bad:
-        # the pool's premise (which texts are one key) is C15's business, not C02's
-        raise core.ToolError("key text pool no longer matches ReconKey equality/hash: %s" % bad[:5])
+        # backpressure/key/mod.rs is anchored in C02: the relief queue's key type must identify exactly the
+        # texts that are one Recon value (ground truth: both texts parsed by the Recon parser, Value::eq)
+        out.violation("ReconKey (the key type of MapOperationQueue) %s: %s" % (
+            "splits one key" if any(b["same_value"] for b in bad) else "merges distinct keys",
+            "; ".join("%r vs %r: eq=%s hash_eq=%s, parsed values %s" % (
+                b["a"], b["b"], b["ReconKey_eq"], b["hash_eq"], "equal" if b["same_value"] else "differ") for b in bad[:4])),
+            {"component": "reconkey-probe", "pairs": bad[:40]})
     prints = {}
     for pool, r in zip(AG_POOLS, res[1:]):
         if r.get("panic"):
@@ -849,6 +858,18 @@ def replay(path, out=None):
         wrong = [o["removed"] for o in r["obs"] if sorted(back.get(core.canon(x), -1) for x in o["removed"]) != want]
         print("real drop_or_take, 20 runs: %d wrong; e.g. %s" % (len(wrong), json.dumps((wrong or [r["obs"][0]["removed"]])[0])))
         if wrong:
+            print("VIOLATION property=%s replay=%s" % (prop, path))
+            return 1
+        return 0
+    if obj.get("component") == "reconkey-probe":
+        case = {"id": "probe", "cfg": {"mode": "probe"}, "acts": [{"k": "cmp", "a": b["a"], "b": b["b"]} for b in obj["pairs"]]}
+        r = run_harness_cases([case], wd, "replay")[0]
+        wrong = 0
+        for b, o in zip(obj["pairs"], r.get("obs", [])):
+            ok = o["eq"] == o["val_eq"] and (not o["val_eq"] or o["hash_eq"])
+            wrong += not ok
+            print("%r vs %r: ReconKey eq=%s hash_eq=%s; parsed values equal=%s%s" % (b["a"], b["b"], o["eq"], o["hash_eq"], o["val_eq"], "" if ok else "   <== WRONG"))
+        if wrong or r.get("panic"):
             print("VIOLATION property=%s replay=%s" % (prop, path))
             return 1
         return 0
